@@ -34,9 +34,9 @@ type c09Cfg struct {
 	// Pre: "" | "reconfigured" (an explicit ownership is set first and then replaced by
 	// this configuration's, nil meaning default again) | "restart" (the service first runs
 	// with another explicit ownership, is stopped, reconfigured and served again)
-	Pre    string   `json:"pre,omitempty"`
-	Layout string   `json:"layout"`
-	Upper  []string `json:"upper,omitempty"`
+	Pre       string   `json:"pre,omitempty"`
+	Layout    string   `json:"layout"`
+	Upper     []string `json:"upper,omitempty"`
 	reconnect bool
 }
 
